@@ -282,7 +282,16 @@ class CallGraph:
             out.append((None, "ext", "init", c.qualname))
         return out
 
-    def _local_alias(self, name: str, d: Def):
+    def _local_alias(self, name: str, d: Def, _depth=[0]):
+        if _depth[0] > 4:
+            return None
+        _depth[0] += 1
+        try:
+            return self._local_alias_impl(name, d)
+        finally:
+            _depth[0] -= 1
+
+    def _local_alias_impl(self, name: str, d: Def):
         vals = []
         x = d
         while x is not None:
@@ -297,6 +306,8 @@ class CallGraph:
         if len(vals) != 1:
             return None
         v, owner = vals[0]
+        if isinstance(v, ast.Name) and v.id == name:
+            return None
         if isinstance(v, (ast.Name, ast.Attribute, ast.Lambda)):
             r = self.resolve_callable(v, owner)
             if r and all(t[1] == "strong" for t in r):
